@@ -544,6 +544,39 @@ fn sparql_skip_ws(mut input: &str) -> &str {
     }
 }
 
+/// Recursion limit shared by the recursive productions (groups, filter atoms,
+/// arithmetic operands, quoted triples): deeper input is a syntax error, not a
+/// stack overflow.
+const SPARQL_MAX_NESTING: usize = 128;
+
+thread_local! {
+    static SPARQL_NESTING: std::cell::Cell<usize> = const { std::cell::Cell::new(0) };
+}
+
+struct NestingGuard;
+
+impl NestingGuard {
+    fn enter(input: &str) -> Result<NestingGuard, nom::Err<nom::error::Error<&str>>> {
+        SPARQL_NESTING.with(|depth| {
+            if depth.get() >= SPARQL_MAX_NESTING {
+                Err(nom::Err::Failure(nom::error::Error::new(
+                    input,
+                    nom::error::ErrorKind::TooLarge,
+                )))
+            } else {
+                depth.set(depth.get() + 1);
+                Ok(NestingGuard)
+            }
+        })
+    }
+}
+
+impl Drop for NestingGuard {
+    fn drop(&mut self) {
+        SPARQL_NESTING.with(|depth| depth.set(depth.get() - 1));
+    }
+}
+
 fn sparql_error<'a, T>(input: &'a str, kind: nom::error::ErrorKind) -> IResult<&'a str, T> {
     Err(nom::Err::Error(nom::error::Error::new(input, kind)))
 }
@@ -970,6 +1003,7 @@ fn sparql_quoted_literal(input: &str) -> IResult<&str, &str> {
 }
 
 fn sparql_quoted_triple_parts(input: &str) -> IResult<&str, LexicalTriplePattern<'_>> {
+    let _nesting = NestingGuard::enter(input)?;
     let input = sparql_skip_ws(input);
     let Some(input) = input.strip_prefix("<<") else {
         return sparql_error(input, nom::error::ErrorKind::Tag);
@@ -1080,6 +1114,7 @@ fn sparql_triples_statement(input: &str) -> IResult<&str, Vec<LexicalTriplePatte
 }
 
 fn sparql_filter_operand(input: &str) -> IResult<&str, ArithmeticExpression<'_>> {
+    let _nesting = NestingGuard::enter(input)?;
     let input = sparql_skip_ws(input);
     if let Some(after_open) = input.strip_prefix('(') {
         let (after_expression, expression) = sparql_filter_arithmetic(after_open)?;
@@ -1213,6 +1248,7 @@ fn sparql_filter_function(input: &str) -> IResult<&str, FilterExpression<'_>> {
 }
 
 fn sparql_filter_atom(input: &str) -> IResult<&str, FilterExpression<'_>> {
+    let _nesting = NestingGuard::enter(input)?;
     let input = sparql_skip_ws(input);
     if let Some(after_not) = input.strip_prefix('!') {
         if !after_not.starts_with('=') {
@@ -1430,6 +1466,7 @@ fn sparql_group_primary(input: &str) -> IResult<&str, GroupGraphPattern<'_>> {
 
 /// Parses a recursive group graph pattern containing BGP, GRAPH, and UNION.
 pub fn parse_group_graph_pattern(input: &str) -> IResult<&str, GroupGraphPattern<'_>> {
+    let _nesting = NestingGuard::enter(input)?;
     let (mut input, _) = sparql_char(input, '{')?;
     let mut joined = Vec::new();
     loop {
